@@ -68,8 +68,8 @@ def canon_answer(ans):
 
 OPS = [">=", "<=", ">", "<", "=", "==", ""]
 WS = [" ", " ", " ", " ", "  ", "\t", "\n", " \t", "\x1f", "\x0c"]
-PRE = ["a", "alpha.1", "rc1", "0", "1", "beta-2", "x", "0a", "01", "a..b", "", "A.B"]
-BUILD = ["b", "001", "build.5", "x", "", "a-b", "1.x"]
+PRE = ["a", "alpha.1", "rc1", "0", "1", "beta-2", "x", "0a", "A.B", "rc.2", "a", "b.7", "01", "a..b", ""]
+BUILD = ["b", "001", "build.5", "x", "a-b", "1.x", "b", "5", ""]
 
 
 def gnum(r):
@@ -136,9 +136,9 @@ def gatom(r):
         return gxrange(r)
     if k < 0.86:
         return r.choice(OPS[:6]) + r.choice(WS) + gxrange(r)
-    if k < 0.90:
+    if k < 0.89:
         return r.choice(["^", "~", "~>", "^^", "~~", "^~", "v^", "=^"]) + gpartial(r)
-    if k < 0.94:
+    if k < 0.96:
         return r.choice(OPS[:6])
     return r.choice(["latest", "*", "", "-", "|", "x", "1.2.3-", "1.2.3+", "a", "1.0.0.x", ".x", "~", "^",
                      "~.x", "^.x", "1..x", "1.2.3.4.x", "-1.x", "+.x", "1-a.x", "1.2-a.x"])
@@ -206,7 +206,7 @@ def gen_texts(r, n):
     out = []
     for _ in range(n):
         s = gexpr(r)
-        for _ in range(r.choice([0, 0, 0, 0, 1, 1, 2])):
+        for _ in range(r.choice([0, 0, 0, 0, 0, 0, 0, 1, 1, 2])):
             s = mutate(r, s)
         out.append(s)
     return out
